@@ -2201,6 +2201,18 @@ impl GraphEngine {
         (id as usize) % self.index_locks.len()
     }
 
+    /// Field names starting with `_` belong to the engine (`_id`, `_from`, `_to`, `_directed`,
+    /// `_labels`, ...) and are never read back as properties: a user property of such a name
+    /// would overwrite the record's own fields.
+    fn reject_reserved_property_names(properties: &HashMap<String, PropertyValue>) -> Result<()> {
+        for name in properties.keys() {
+            if name.starts_with('_') {
+                return Err(GraphError::InvalidPropertyName { name: name.clone() });
+            }
+        }
+        Ok(())
+    }
+
     // ========== Index CRUD Methods ==========
 
     /// Create an index on a node property for O(log n) lookups.
@@ -3228,6 +3240,8 @@ impl GraphEngine {
         labels: Vec<String>,
         properties: HashMap<String, PropertyValue>,
     ) -> Result<u64> {
+        Self::reject_reserved_property_names(&properties)?;
+
         // Acquire lock to prevent TOCTOU race when unique constraints exist.
         let has_unique = self.has_any_unique_node_constraint();
         let _guard = if has_unique {
@@ -3291,6 +3305,8 @@ impl GraphEngine {
         properties: HashMap<String, PropertyValue>,
         directed: bool,
     ) -> Result<u64> {
+        Self::reject_reserved_property_names(&properties)?;
+
         let edge_type = edge_type.into();
 
         // Acquire lock to prevent TOCTOU race when unique constraints exist.
@@ -3554,6 +3570,8 @@ impl GraphEngine {
         labels: Option<Vec<String>>,
         properties: HashMap<String, PropertyValue>,
     ) -> Result<()> {
+        Self::reject_reserved_property_names(&properties)?;
+
         // Get old node for index maintenance
         let old_node = self.get_node(id)?;
 
@@ -3742,6 +3760,8 @@ impl GraphEngine {
     /// Returns `EdgeNotFound` if the edge doesn't exist.
     #[allow(clippy::needless_pass_by_value)] // ownership avoids caller clones
     pub fn update_edge(&self, id: u64, properties: HashMap<String, PropertyValue>) -> Result<()> {
+        Self::reject_reserved_property_names(&properties)?;
+
         // Get old edge for index maintenance
         let old_edge = self.get_edge(id)?;
 
@@ -8100,6 +8120,8 @@ impl GraphEngine {
         labels: &[String],
         properties: &HashMap<String, PropertyValue>,
     ) -> Result<()> {
+        Self::reject_reserved_property_names(properties)?;
+
         let mut tensor = TensorData::new();
         tensor.set(
             "_id",
@@ -8222,6 +8244,8 @@ impl GraphEngine {
         properties: &HashMap<String, PropertyValue>,
         directed: bool,
     ) -> Result<()> {
+        Self::reject_reserved_property_names(properties)?;
+
         let mut tensor = TensorData::new();
         tensor.set(
             "_id",
